@@ -4,7 +4,10 @@ import (
 	"fmt"
 	"testing"
 
+	"mltwist/internal/deps"
+	"mltwist/internal/exprtransform"
 	"mltwist/pkg/expr"
+	"mltwist/pkg/model"
 	"mltwist/verifharness/internal/ev"
 
 	"pgregory.net/rapid"
@@ -37,7 +40,7 @@ func c06Independent(a, b *sIns, bIsTerminatingJump bool) string {
 	if keysIntersect(union(a.regsRead, a.regsWrite), union(b.regsRead, b.regsWrite)) {
 		return "share a register"
 	}
-	for _, k := range synthMems {
+	for k := range union(union(a.memRead, a.memWrite), union(b.memRead, b.memWrite)) {
 		aAcc, bAcc := a.memRead[k] || a.memWrite[k], b.memRead[k] || b.memWrite[k]
 		if aAcc && bAcc && (a.memWrite[k] || b.memWrite[k]) {
 			return "conflicting memory access"
@@ -60,8 +63,8 @@ func c06Independent(a, b *sIns, bIsTerminatingJump bool) string {
 }
 
 func TestC06(t *testing.T) {
-	col := ev.New("C06", "rapid: valid programs of 1-4 blocks of 2-8 synthetic instructions (4 registers, 2 memories, "+
-		"type flags, fall-through-only ip writers, terminating jumps); for every adjacent pair the five clauses of the "+
+	col := ev.New("C06", "rapid: (2/3) valid programs of 1-4 blocks of 2-8 synthetic instructions (4 registers, 2 memories, "+
+		"type flags, fall-through-only ip writers, terminating jumps), (1/3) generated RV64IMA programs lifted by the real front end; for every adjacent pair the five clauses of the "+
 		"statement are evaluated on the generator's own description (own read/write sets); an independent pair must be "+
 		"accepted by Move(i,i+1) and, on a fresh code, by Move(i+1,i). One-directional by design (missing edges are "+
 		"C05's job). non-trivial = independent pair inside a block whose other instructions touch the same registers or "+
@@ -69,12 +72,52 @@ func TestC06(t *testing.T) {
 	defer col.Flush()
 
 	rapid.Check(t, func(t *rapid.T) {
-		p := drawProgram(t, 4, 8)
-		code1 := buildCode(t, p)
+		var p fmt.Stringer
 		byAddr := map[uint64]*sIns{}
-		for _, s := range p.ins {
-			byAddr[s.addr] = s
+		var mk func() *deps.Code
+		if uniformInt(t, 3, "realRiscvCode") == 0 {
+			rp := drawRVProgram(t, 24)
+			seq, err := buildRVSeq(rp)
+			if err != nil {
+				t.Fatalf("%v", err)
+			}
+			for _, in := range seq {
+				d := &sIns{addr: uint64(in.Addr), effects: in.Effects, length: len(in.Bytes), typ: in.Type}
+				for _, ef := range in.Effects {
+					if rs, ok := ef.(expr.RegStore); ok && rs.Key() == expr.IPKey {
+						// possible ip values, for the "terminating jump" clause
+						for _, pv := range exprtransform.Possibilities(rs.Value()) {
+							if c, ok := exprtransform.ConstFold(pv).(expr.Const); ok {
+								a, _ := expr.ConstUint[uint64](c)
+								d.ip = append(d.ip, ipTarget{true, a})
+							} else {
+								d.ip = append(d.ip, ipTarget{false, 0})
+							}
+						}
+					}
+				}
+				d.describe()
+				byAddr[d.addr] = d
+			}
+			mk = func() *deps.Code {
+				c, err := deps.NewCode(model.Addr(rp.entry), seq)
+				if err != nil {
+					t.Fatalf("NewCode: %v\n  program %s", err, rp)
+				}
+				return c
+			}
+			p = rp
+			col.Class("real-riscv-code")
+		} else {
+			sp := drawProgram(t, 4, 8)
+			for _, s := range sp.ins {
+				byAddr[s.addr] = s
+			}
+			mk = func() *deps.Code { return buildCode(t, sp) }
+			p = sp
+			col.Class("synthetic-code")
 		}
+		code1 := mk()
 		nb := code1.Len()
 		for bi := 0; bi < nb; bi++ {
 			n := code1.Index(bi).Num()
@@ -82,7 +125,7 @@ func TestC06(t *testing.T) {
 				col.Case()
 				// fresh codes for each direction so moves do not interfere
 				for dir := 0; dir < 2; dir++ {
-					code := buildCode(t, p)
+					code := mk()
 					b := code.Index(bi)
 					ins := b.Instructions()
 					a, c := byAddr[uint64(ins[i].OrigAddr())], byAddr[uint64(ins[i+1].OrigAddr())]
